@@ -2,6 +2,7 @@ package json
 
 import (
 	"bytes"
+	"io"
 	"context"
 	"encoding/json"
 
@@ -350,6 +351,10 @@ func HTMLEscape(dst *bytes.Buffer, src []byte) {
 
 // Valid reports whether data is a valid JSON encoding.
 func Valid(data []byte) bool {
+	// a NUL byte is never part of a JSON text (the stream decoder takes it for the end of its window)
+	if bytes.IndexByte(data, 0) >= 0 {
+		return false
+	}
 	// a Decoder skips one ',' or ':' before a value (it may follow a Token call);
 	// a JSON text cannot start with one
 	for _, c := range data {
@@ -369,19 +374,13 @@ func Valid(data []byte) bool {
 	if err != nil {
 		return false
 	}
-	// only white space may follow the value (More() also stops at a stray ']' or '}')
-	offset := decoder.InputOffset()
-	if offset > int64(len(data)) {
-		offset = int64(len(data))
+	// only white space may follow the value. More() skips it and reports false at the end of
+	// the input, but also at a stray ']' or '}', which is then still in the window.
+	if decoder.More() {
+		return false
 	}
-	for _, c := range data[offset:] {
-		switch c {
-		case ' ', '\t', '\n', '\r':
-		default:
-			return false
-		}
-	}
-	return true
+	rest, err := io.ReadAll(decoder.Buffered())
+	return err == nil && len(rest) == 0
 }
 
 func init() {
